@@ -93,6 +93,28 @@ obs(item.double)
 obs(Item.helper(1))
 obs(Item.count)
 '''),
+    ('decorated_methods', '''
+import builtins
+def as_static(flag):
+    return staticmethod
+class Shape:
+    @builtins.staticmethod
+    def scale(factor, amount):
+        return factor * amount
+    @as_static(1)
+    def shift(offset, amount=1):
+        return offset + amount
+    @builtins.classmethod
+    def make(klass, size):
+        return (klass.__name__ == 'Shape', size)
+    @staticmethod
+    def plain(first, second=2):
+        return first - second
+obs(Shape.scale(factor=2, amount=5))
+obs(Shape.shift(offset=3))
+obs(Shape.make(size=4))
+obs(Shape.plain(first=9))
+'''),
     ('slots', '''
 class Point:
     __slots__ = ('x_coord', 'y_coord')
